@@ -170,6 +170,8 @@ type caseRun struct {
 	sec    krt.StaticCollection[Obj]
 	secNs  krt.Index[string, Obj]
 	der    krt.Collection[Out]
+	chain  bool
+	top    krt.Collection[Out] // the observed collection: der, or a collection chained behind it
 	derIdx krt.Index[string, Out]
 	subs   map[string]*subscriber
 }
@@ -262,7 +264,13 @@ func (c *caseRun) start() {
 			return &o[0]
 		}, krt.WithStop(c.stop), krt.WithName("derived"))
 	}
-	c.derIdx = krt.NewIndex[string, Out](c.der, "ns", func(o Out) []string { return []string{o.NS} })
+	c.top = c.der
+	if c.chain {
+		c.top = krt.NewCollection[Out, Out](c.der, func(ctx krt.HandlerContext, o Out) *Out {
+			return &Out{Key: o.Key, NS: o.NS, Val: o.Val + "|c"}
+		}, krt.WithStop(c.stop), krt.WithName("chained"))
+	}
+	c.derIdx = krt.NewIndex[string, Out](c.top, "ns", func(o Out) []string { return []string{o.NS} })
 	c.d.started = true
 	c.d.unsafeK = nil
 	c.d.barrier()
@@ -363,9 +371,9 @@ func (c *caseRun) step(toks []string) (string, string) {
 		c.subs[toks[1]] = s
 		switch toks[2] {
 		case "single":
-			c.der.Register(s.record)
+			c.top.Register(s.record)
 		case "batch":
-			c.der.RegisterBatch(func(es []krt.Event[Out]) {
+			c.top.RegisterBatch(func(es []krt.Event[Out]) {
 				for _, e := range es {
 					s.record(e)
 				}
@@ -373,7 +381,7 @@ func (c *caseRun) step(toks []string) (string, string) {
 		default: // nostate
 			synctest.Wait()
 			c.d.barrier()
-			c.der.RegisterBatch(func(es []krt.Event[Out]) {
+			c.top.RegisterBatch(func(es []krt.Event[Out]) {
 				for _, e := range es {
 					s.record(e)
 				}
@@ -389,16 +397,16 @@ func (c *caseRun) step(toks []string) (string, string) {
 	switch {
 	case toks[0] == "list" && len(toks) == 1:
 		return "list " + answer(false, func() string {
-			return showEntries(c.der.List(), func(k string) bool { return !c.d.inU(k) })
+			return showEntries(c.top.List(), func(k string) bool { return !c.d.inU(k) })
 		}), line
 	case toks[0] == "ulist" && len(toks) == 1:
-		return "ulist " + answer(true, func() string { return showEntries(c.der.List(), c.d.inU) }), line
+		return "ulist " + answer(true, func() string { return showEntries(c.top.List(), c.d.inU) }), line
 	case toks[0] == "get" && len(toks) == 2:
 		return "get " + answer(false, func() string {
 			if c.d.inU(toks[1]) {
 				return "masked"
 			}
-			o := c.der.GetKey(toks[1])
+			o := c.top.GetKey(toks[1])
 			if o == nil {
 				return "none"
 			}
@@ -491,7 +499,9 @@ func newRunner(head []string) runner {
 	if !ok {
 		return nil
 	}
-	return newCaseRun(tr, contains(head[4:], "f6"))
+	c := newCaseRun(tr, contains(head[4:], "f6"))
+	c.chain = contains(head[4:], "chain")
+	return c
 }
 
 func splitCases(lines [][]string) [][][]string {
